@@ -236,7 +236,7 @@ let () =
       let r = dec_get enc in
       seen_distinct ("g" ^ enc ^ string_of_int (Hashtbl.hash !cur_state));
       if not (get_wire_ok r) then mismatch id "decoded GetRequest violates the wire-decodability predicate";
-      if !cur_state = [] then stat "get.on-empty-configuration" else stat "get.on-populated-configuration";
+      if List.for_all (fun c -> c.cf_values = []) !cur_state then stat "get.no-values-stored-anywhere" else stat "get.some-configuration-populated";
       let m = get_handler !cur_env !cur_state r in
       compare_outcome id "Get" m obs;
       stat ("get." ^ (if is_panic_obs obs then "panic" else "code" ^ string_of_int (obs_code obs)));
@@ -254,6 +254,13 @@ let () =
       let r = dec_lsq enc in
       seen_distinct ("l" ^ enc ^ string_of_int (Hashtbl.hash !cur_state));
       if not (lsq_wire_ok r) then mismatch id "decoded LeafSelectionQueryRequest violates the wire-decodability predicate";
+      (* server state addressed by the query: configuration absent / present but empty / populated *)
+      let cid = str_of r.l_target ^ "-" ^ str_of r.l_type ^ "-" ^ str_of r.l_version in
+      let has_merge = (match r.l_ctx with Some cx -> cx.s_update <> [] || cx.s_replace <> [] | None -> false) in
+      (match List.find_opt (fun c -> str_of c.cf_id = cid) !cur_state with
+       | None -> stat "lsq.configuration-absent"
+       | Some c when c.cf_values = [] -> stat (if has_merge then "lsq.configuration-empty.with-updates" else "lsq.configuration-empty")
+       | Some _ -> stat (if has_merge then "lsq.configuration-populated.with-updates" else "lsq.configuration-populated"));
       compare_outcome id "LeafSelectionQuery" (lsq_handler !cur_env !cur_state r) obs;
       stat ("lsq." ^ (if is_panic_obs obs then "panic" else "code" ^ string_of_int (obs_code obs)));
       monitor_panic id "leafselection" obs None
